@@ -75,3 +75,33 @@ Arguments r_used {key}.
 (* the harness's toy cipher.Block: out[i] = in[(i+1) mod 16] + k + i (mod 256) *)
 Definition toy_E (k : Z) (s : list Z) : list Z :=
   map (fun p : nat * Z => (snd p + k + Z.of_nat (fst p)) mod 256) (combine (seq 0 16) (tl s ++ [hd 0 s])).
+
+(* rngChacha8 (the generator used where AES hardware is missing): the same counter logic around
+   math/rand/v2's ChaCha8, which is abstract here - `next g n` = rand.Read of n bytes, `reseed i g`
+   = g.Seed(the i-th 32 bytes drawn from crypto/rand). *)
+Section Chacha.
+  Variable gen : Type.
+  Variable next : gen -> Z -> gen * list Z.
+  Variable reseed : nat -> gen -> gen.
+
+  Record crng := mkCrng { c_epoch : nat; c_gen : gen; c_count : Z }.
+
+  Definition c_update (r : crng) : crng :=
+    if c_count r <? c_reseedInterval then mkCrng (c_epoch r) (c_gen r) (c_count r + 1)
+    else mkCrng (S (c_epoch r)) (reseed (c_epoch r) (c_gen r)) 0.
+
+  Definition c_read (n : Z) (r : crng) : crng * list Z :=
+    if n <=? 0 then (r, [])
+    else let r1 := c_update r in
+         let '(g, o) := next (c_gen r1) n in (mkCrng (c_epoch r1) g (c_count r1), o).
+
+  Fixpoint c_reads (ns : list Z) (r : crng) : crng * list (list Z) :=
+    match ns with
+    | [] => (r, [])
+    | n :: t => let '(r1, o) := c_read n r in let '(r2, os) := c_reads t r1 in (r2, o :: os)
+    end.
+End Chacha.
+Arguments mkCrng {gen}.
+Arguments c_epoch {gen}.
+Arguments c_gen {gen}.
+Arguments c_count {gen}.
